@@ -354,7 +354,8 @@ theorem conn_seq (S : Seeded tbl mode spec s c) :
         have hnum1 := hnumAll true
         simp only [Bool.false_eq_true, if_false, Nat.add_zero] at hnum0
         simp only [if_true] at hnum1
-        rw [hnum0] at hnum; cases hnum
+        have hnn : n0 = num := by rw [hnum0] at hnum; exact Option.some.inj hnum
+        rw [← hnn] at hreach
         have hlenv := wf.seqLen o ho
         have hxl' : x < o.len := by rw [← hlenv]; exact hxl
         have hedge := viewEdges_has (spec := spec) (encOf spec (layOf mode spec)) (n0 := n0) (o := o) (by
